@@ -314,5 +314,36 @@ func runAll(frs []*FuncResult, timeout, jobs int, keepDir string) []*Verdict {
 		}()
 	}
 	wg.Wait()
+	// Second chance for undecided obligations: a timeout (or an "unknown" given up early) on a loaded machine is not a
+	// verdict. At most six such obligations are asked again, side by side now that nothing else runs, with three times
+	// the time (at least 30 s). Only an unsat answer changes anything; the solver name records the retry.
+	var again []int
+	for i, v := range out {
+		if v != nil && !js[i].o.Smoke && !js[i].o.Canary && (v.Status == "timeout" || v.Status == "unknown" || v.Status == "error") {
+			again = append(again, i)
+		}
+	}
+	if n := len(again); n > 0 && n <= 6 {
+		to := 3 * timeout
+		if to < 30 {
+			to = 30
+		}
+		var wg2 sync.WaitGroup
+		for _, i := range again {
+			i := i
+			wg2.Add(1)
+			go func() {
+				defer wg2.Done()
+				script := js[i].fr.Enc.script(js[i].o, false)
+				st, sv, o, t, _ := solve(context.Background(), script, to, false, nil)
+				out[i].Time += t
+				if st == "unsat" {
+					out[i].Status, out[i].Solver, out[i].Output = "unsat", sv+" (retry)", o
+					out[i].Model, out[i].Candidate = nil, false
+				}
+			}()
+		}
+		wg2.Wait()
+	}
 	return out
 }
